@@ -25,7 +25,7 @@ TEXT = {
          "4 C08"),
  "C09": ("Theorems: the parser inverts the token-level printer for all nestings, the tokenizer inverts token rendering (strings, integers, identifiers), printer/reader round trip on data values. Campaign: type-directed values in random layouts, float literals against correctly rounded conversion, print-read-back on the real reader.",
          "4 C09"),
- "C10": ("Theorem: no evaluation in the model yields a panic outcome (same induction as C03; integer arithmetic is range-checked so there is no build-profile dependence). Campaign: every built-in x argument kinds x arity 0-4, malformed forms, self-referential forms, under both build profiles.",
+ "C10": ("Theorem: no evaluation in the model yields a panic outcome (same induction as C03; integer arithmetic is range-checked so there is no build-profile dependence). Campaign: the set of bound symbols of a fresh context equals the model's registration table; every built-in x argument kinds x arity 0-4, malformed forms (also as bodies of definitions), self-referential forms and running forms handed to form-walkers, under both build profiles.",
          "4 C10"),
  "C11": ("Theorems: library list functions build fresh spines and assign no variable; quote returns the literal itself. Campaign: arguments and literals re-read after repeated calls, repeated evaluation of expressions.",
          "4 C11"),
@@ -45,7 +45,7 @@ TEXT = {
          "4 C18"),
  "C19": ("Theorems: requests on one context never change another, interleaving does not change a transcript, load = evaluate up to the file id. Campaign: histories alone / again / from files / nested loads / interleaved with other contexts / in a second process.",
          "4 C19"),
- "C20": ("Heap model of the object API: push/append refine sequence append for every handle sharing the tail, symbol API refines a stack, conversions round-trip; operation sequences compared with the real API.",
+ "C20": ("Heap model of the object API: push/append refine sequence append for every handle sharing the tail, the alist / plist / list helpers (length, nth, nthcdr, last, assoc, alist_get, alist_from, plist_from) refine the sequence model, symbol API refines a stack, conversions round-trip; operation sequences compared with the real API; host functions applied to values through every higher-order route and TulispContext::funcall/map/filter/reduce.",
          "4 C20"),
 }
 
